@@ -222,6 +222,8 @@ def eval_case(case):
         cl0 = ['ports-in-file:' + ''.join('p' if p is not None else '-' for p in ports[:4])]
     else:
         cl0 = []
+    if case.get('all_interleavings'):
+        cl0.append('one-of-all-interleavings-of-a-pair')
     cl = cl0 + ['mode:' + mode, 'threads:%d' % min(threads, 5), 'n:%d' % min(len(archs), 5)] + (['thread-reused'] if reused else []) + (['interleaved'] if inter else []) + (['free-running'] if sch is None else [])
     return mkres(case, nt=nt, classes=cl, fails=fails[:4])
 
@@ -288,6 +290,31 @@ def run(ctx):
         cases.append({'archs': [wide_arch[(i + j * (1 + i % 3)) % len(wide_arch)] for j in range(n)], 'mode': ('text', 'json')[i % 2], 'threads': n + i % 3,
                       # lock-step (every worker advances by one connection per round, so all of them are in the same phase at once) or random
                       'choices': list(range(n)) if i % 3 != 2 else [rng.randint(0, n) for _ in range(60)], 'wide': True})
+    # every interleaving of the connection events of two targets on two worker threads (the number of gate events of
+    # each archetype - its start plus every connection it opens or read it blocks on - is measured in a solo run)
+    ev = {}
+    for a in ORDER:
+        r0, sch0 = run_targets([('t0', a)], 'json', 1, [0])
+        ev[a] = len([e for e in sch0.trace if e[0] in ('start', 'connect')])
+    import math
+    inter, n_pairs_full = [], 0
+    cap = 100 if ctx.quick else 3500
+    for i, a in enumerate(ORDER):
+        for b in ORDER[i:]:
+            na, nb = ev[a], ev[b]
+            total = math.comb(na + nb, na)
+            if total > cap:
+                if ctx.quick:
+                    continue
+                combos = [tuple(sorted(rng.sample(range(na + nb), na))) for _ in range(400)]      # too many to list: a sample
+            else:
+                combos = list(itertools.combinations(range(na + nb), na))
+                n_pairs_full += 1
+            for zeros in combos:
+                zs = set(zeros)
+                inter.append({'archs': [a, b], 'mode': 'json' if (len(inter) % 3) else 'text', 'threads': 2, 'choices': [0 if k in zs else 1 for k in range(na + nb)], 'all_interleavings': True})
+    cases += inter
+    ctx.note(pairs_with_every_interleaving=n_pairs_full, interleaving_cases=len(inter), gate_events_per_archetype=ev)
     ctx.map(cases)
     ctx.hyp('strat_history', 2500 if ctx.quick else 30000, label=1, shards=16)
     # free-running threads (no scheduler): the real pool decides
@@ -303,5 +330,5 @@ def run(ctx):
     ctx.map(real, chunk=1)
     ctx.note(traces_validated_against_impl=len(real))
     ctx.note(archetypes=ORDER, ordered_pairs=len(pairs))
-    return ctx.finish('exploration', 'ordered pairs (all) / triples (thorough: half of all) / Hypothesis histories of 2-4 target archetypes (one per channel through which a scan edits the rating tables, plus SSH-1 and a refusing host) x text / JSON / policy output x 1-3 worker threads x harness-owned schedules (generated choice lists decide which waiting worker proceeds at each worker start and each connection event) plus free-running runs; oracle = byte-identical block of a fresh single-target run; non-trivial = a worker thread reused for a different archetype, or interleaved connection events',
+    return ctx.finish('exploration', 'ordered pairs (all) / every interleaving of the gate events of two targets on two threads (all pairs whose interleavings number at most 100, thorough 3500; sampled beyond) / triples (thorough: half of all) / Hypothesis histories of 2-4 target archetypes (one per channel through which a scan edits the rating tables, plus SSH-1 and a refusing host) x text / JSON / policy output x 1-3 worker threads x harness-owned schedules (generated choice lists decide which waiting worker proceeds at each worker start and each connection event) plus free-running runs; oracle = byte-identical block of a fresh single-target run; non-trivial = a worker thread reused for a different archetype, or interleaved connection events',
                       assumptions=['the wrapper around target_worker_thread and the connection gate only delay threads, they do not change what any thread computes'])
